@@ -329,6 +329,15 @@ func vestStep(prop string) func(si *StepInfo) (interface{}, []*explore.Violation
 			// re-read and the state invariant plus the rollback check of the conformance replay decide
 			return newPoolModel(si.W, si.Post), nil
 		}
+		if softRequest(si.Msg) {
+			// The property does not say whether a degenerate request (amount 0, empty name, no
+			// duration) is to be accepted: its outcome is not predicted. If it was accepted the model
+			// is re-read from the implementation; the state invariant applies as always.
+			if si.Out.Class == harness.OK {
+				return newPoolModel(si.W, si.Post), nil
+			}
+			return m, nil
+		}
 		if o := msgOwner(si.Msg); o != "" && !canonicalAddr(o) {
 			// The property speaks about pools and coins, not about which spelling of an address finds
 			// which pools: a message whose owner is spelled unusually is not predicted; the model is
@@ -390,6 +399,17 @@ func vestStep(prop string) func(si *StepInfo) (interface{}, []*explore.Violation
 func canonicalAddr(s string) bool {
 	a, err := sdk.AccAddressFromBech32(s)
 	return err == nil && a.String() == s
+}
+
+// softRequest: requests whose acceptance the properties leave open.
+func softRequest(m sdk.Msg) bool {
+	switch msg := m.(type) {
+	case *vtypes.MsgCreateVestingPool:
+		return msg.Amount.IsNil() || msg.Amount.IsZero() || msg.Name == "" || msg.Duration <= 0
+	case *vtypes.MsgSendToVestingAccount:
+		return msg.Amount.IsNil() || msg.Amount.IsZero() || msg.VestingPoolName == ""
+	}
+	return false
 }
 
 func msgOwner(m sdk.Msg) string {
